@@ -86,7 +86,7 @@ def job_bp(h):
 def jobs(ctx):
     module(ctx); K = BOUNDS[ctx.tier]['K_iterations']
     J = [(job_entry, ('lt', K)), (job_entry, ('gt', K)), (job_entry, ('eq', 1)), (job_order, (min(K, 2),)), (job_linear, ())]
-    for h in bp.harnesses('C02.c'): J.append((job_bp, (h,)))
+    for h in bp.harnesses('C02.c', ctx.tier): J.append((job_bp, (h,)))
     return J
 
 def validate(ctx):
